@@ -10,6 +10,13 @@ SHM_ASSIGNS = "__CPROVER_assigns(fd, g_errno, g_shm_opens, shm_exists, shm_id, s
 LOOPS = {"pshm-posix.c": {"pp_shm_create_handle": {"nloops": 2,
             "0": [SHM_ASSIGNS, "__CPROVER_loop_invariant(%s)" % SHM_INV], "1": [SHM_ASSIGNS, "__CPROVER_loop_invariant(%s)" % SHM_INV]}},
          "psemaphore-posix.c": dict(c06.LOOPS_CREATE["psemaphore-posix.c"], **c06.LOOPS_ACQ["psemaphore-posix.c"])}
+PEER_ASSIGNS = c06.OPEN_ASSIGNS[:-1] + ", g_peer_holds, g_peer_id)"
+# with a peer the namespace may change at every sem_* call (weak invariant); without one it is the sequential invariant
+PEER_INV = "%s && (g_peer_opener || ((%s) && !g_peer_holds))" % (c06.RACE_INV, c06.OPEN_INV)
+LOOPS_PEER = {"pshm-posix.c": LOOPS["pshm-posix.c"],
+              "psemaphore-posix.c": {"pp_semaphore_create_handle": {"nloops": 3,
+                  "0": [PEER_ASSIGNS, "__CPROVER_loop_invariant(%s)" % PEER_INV], "1": [PEER_ASSIGNS, "__CPROVER_loop_invariant(%s)" % PEER_INV], "2": [PEER_ASSIGNS, "__CPROVER_loop_invariant(%s)" % PEER_INV]},
+                                     "p_semaphore_acquire": c06.LOOPS_ACQ["psemaphore-posix.c"]["p_semaphore_acquire"]}}
 def U(id, entry, **kw):
     d = dict(id=id, harness="shm.c", entry=entry, sources=SRC, enforce=None, replace=[], timeout=900, loops=LOOPS, cbmc_flags=["--object-bits", "10"])
     d.update(kw); return d
@@ -17,6 +24,7 @@ FN = ["p_shm_new", "pp_shm_create_handle", "pp_shm_clean_handle", "p_shm_free", 
       "p_semaphore_new", "p_semaphore_free", "p_semaphore_acquire", "p_semaphore_release"]
 UNITS = [
     U("new", "h_new", canaries=3, functions=FN, replay={"driver": "C07_replay.c", "mode": "zero_size", "args": []}),
+    U("new_first_open_race", "h_new_first_open_race", canaries=1, functions=[], loops=LOOPS_PEER, replay={"driver": "C07_replay.c", "mode": "first_open_race", "args": [], "timeout": 60}),
     U("free", "h_free", canaries=2, functions=[], loops={}, replay={"driver": "C07_replay.c", "mode": "free_maplen", "args": []}),
     U("take_ownership_free", "h_take_ownership_free", functions=[], loops={}),
     U("lock_unlock", "h_lock_unlock", canaries=2, functions=[]),
@@ -31,5 +39,4 @@ LEVEL_TEXT = ("p_shm_new/free/take_ownership/lock/unlock/getters as obligations 
               "the object the name denotes; the lock handle is bound to the semaphore named after the segment key (creator resets it to one unit); the descriptor is closed once on every "
               "exit; failure releases everything; owner free removes both names and the exact mapping, non-owner free leaves the namespace alone; recovery lemma from every crash state.")
 LEVEL_NOTE = ("Trusted: ghost kernel models env/posix_shm.c and env/posix_sem.c (MAP_SHARED coherence, semaphore blocking), key derivation as a collision-free function, allocator and string "
-              "models, close() succeeding. Concurrent first-open by several processes is NOT covered by these sequential obligations (a creator's reset of the lock can split the lock "
-              "from an opener that got in first): seen by reading only, NOT decided by any check here and therefore not listed as a finding. Known finding: zero-size leftover segment.")
+              "models, close() succeeding. Concurrent first open by a creator and an opener is decided in unit new_first_open_race (environment step: the opener's 'open the lock, create it if missing' between the creator's semaphore calls): it FAILS on the real code -- known finding C07_FIRST_OPEN_LOCK_SPLIT, reproduced natively with a forced interleaving. Other concurrent schedules (two openers, lockers) rest on the kernel's semaphore and are not enumerated. Known findings: zero-size leftover segment, first-open lock split.")
